@@ -672,7 +672,12 @@ under one environment without fault plan: if every load of the history satisfies
 state it starts from (`CleanLoad`, `NoProbedKeyFilled`, and the same for the registrations still in
 the channel: `NoPendingKeyFilled`), then after **every** `hot_reload` step everything registered and
 cached is settled, the index is exact and the channel is drained. Loads need not be separated by
-`hot_reload`s. -/
+`hot_reload`s. `LoadHist` also admits `get_or_insert` (a static entry; same two no-fill hypotheses) and the
+operations that leave the cache as it is (`get_cached`, `contains`). Not covered: `remove` / `take` /
+`clear` (the cache shrinks: an asset that loaded the removed key is no longer settled — its
+re-evaluation misses — unless nothing registered depends on it; all lemmas here rest on the cache only
+growing), `load_owned` (registers a key it does not cache; its loader is re-run, not read back),
+`notify` / `enhance` / edits (that is `C05_hot_reload_converges_partial`). -/
 theorem C05_history_settled_partial (env : Env) (hS : env.Steady) (fuel : Nat) (h : List (Env × HOp))
     (hh : LoadHist env fuel h ({}, {})) :
     ∀ h1 h2, h = h1 ++ (env, .hotReload) :: h2 →
@@ -682,6 +687,22 @@ theorem C05_history_settled_partial (env : Env) (hS : env.Steady) (fuel : Nat) (
   intro h1 h2 e
   obtain ⟨j1, j2⟩ := (loads_settle hS hh (HInv.init env fuel)).2 h1 h2 e
   exact ⟨j1, C05_history_keeps_graphOK fuel _ _ graphOK_nil, j2⟩
+
+/-- **Non-vacuity** with the other admitted operations: `load b`, `get_or_insert z`, `get_cached e`, `hot_reload` -/
+example :
+    Settled (exEnv [1, 0] [10]) 10
+      (runH 10 ([(exEnv [1, 0] [10], .api (.load kb)), (exEnv [1, 0] [10], .api (.getOrInsert ⟨0, "z"⟩ (.int 5))),
+        (exEnv [1, 0] [10], .api (.getCached ke))] ++ [(exEnv [1, 0] [10], .hotReload)]) ({}, {})).1
+      (runH 10 ([(exEnv [1, 0] [10], .api (.load kb)), (exEnv [1, 0] [10], .api (.getOrInsert ⟨0, "z"⟩ (.int 5))),
+        (exEnv [1, 0] [10], .api (.getCached ke))] ++ [(exEnv [1, 0] [10], .hotReload)]) ({}, {})).2.graph :=
+  (C05_history_settled_partial (exEnv [1, 0] [10]) (exEnv_steady _ _) 10
+    [(exEnv [1, 0] [10], .api (.load kb)), (exEnv [1, 0] [10], .api (.getOrInsert ⟨0, "z"⟩ (.int 5))),
+     (exEnv [1, 0] [10], .api (.getCached ke)), (exEnv [1, 0] [10], .hotReload)]
+    (.load kb _ _ _ (loadOK_of_check (by decide))
+      (.insert _ _ _ _ _ (noProbedKeyFilled_of_check (by decide)) (noPendingKeyFilled_of_check (by decide))
+        (.look (.getCached ke) _ _ rfl (.hotReload _ _ (.nil _)))))
+    [(exEnv [1, 0] [10], .api (.load kb)), (exEnv [1, 0] [10], .api (.getOrInsert ⟨0, "z"⟩ (.int 5))),
+     (exEnv [1, 0] [10], .api (.getCached ke))] [] rfl).1
 
 /-- the cache and the reloader after `load(key)` and after the reloader has taken the registrations -/
 def loadDrain (env : Env) (fuel : Nat) (x : St × RSt) (key : Key) : St × RSt :=
